@@ -58,6 +58,14 @@ def run(ctx, repo, tier):
         raise AnalysisError("anchor vanished: Pseudotrajectory.generate_pseudotrajectory")
     ctx.analysed(gen)
     where = gen.where
+    # per-frame placement may live in a private helper (method, module-level or nested function): analyse the spliced generator
+    from ..model import FunctionInfo as _FI0, set_parents as _sp0
+    _spl = splice_self_calls(pci, gen.node, module=pci.module)
+    _sp0(_spl)
+    for c_ in ast.walk(gen.node):
+        if isinstance(c_, ast.Call) and isinstance(c_.func, ast.Name) and pci.module.functions.get(c_.func.id) is not None:
+            ctx.analysed(pci.module.functions[c_.func.id])
+    gen = _FI0(gen.name, gen.qualname, gen.module, _spl, gen.cls)
     loops = [n for n in gen.node.body if isinstance(n, ast.For)]
     if len(loops) != 1:
         loops = [n for n in ast.walk(gen.node) if isinstance(n, ast.For)]
